@@ -75,7 +75,7 @@ impl RemovalChecker
     {
         Self{
             component_id : TypeId::of::<C>(),
-            checker      : SysCall::new(|world, buffer| syscall(world, buffer, collect_component_removals::<C>)),
+            checker      : SysCall::new(|world, buffer| syscall_without_flush(world, buffer, collect_component_removals::<C>, |_|{})),
         }
     }
 }
